@@ -206,6 +206,25 @@ class Core(Monitor):
     def on_trash(self, scheduler, handler):
         self.ctx.pending.pop(handler, None)
 
+    def on_get_failed(self, scheduler, exc):
+        """Facts about a refused get, from the shadow scheduler: is the earliest candidate a (normalised) time that
+        lies before the time of the last commit by no more than a rounding error?"""
+        from fractions import Fraction
+        import math
+        ctx = self.ctx
+        finite = [t for t in ctx.pending.values() if not math.isinf(t.quotient)]
+        if not finite or ctx.now is None:
+            return
+        earliest = min(finite, key=lambda t: (t.quotient, t.remainder))
+
+        def normalised(t):
+            return t.quotient == math.floor(t.quotient) and 0.0 <= t.remainder < 1.0
+
+        behind = (Fraction(ctx.now.quotient) + Fraction(ctx.now.remainder)
+                  - Fraction(earliest.quotient) - Fraction(earliest.remainder))
+        ctx.notes["refused_get"] = {"normalised": normalised(earliest) and normalised(ctx.now),
+                                    "behind_by": float(behind)}
+
     def on_get(self, scheduler, handler):
         ctx = self.ctx
         if ctx.step >= self.max_events:
